@@ -1822,17 +1822,15 @@ Proof.
       + pose proof (valid_type_xlen _ _ V7). lia.
       + pose proof (valid_type_xlen _ _ V7). lia.
       + exact V8. }
-  assert (Hvq : Forall (varQ mm (Zlen dims)) (h_vars h)) by (eapply Forall_impl; [|exact Hvars]; intros v Hv; tauto).
-  assert (Hpq : Forall (pvQ dims) (h_vars h)) by (eapply Forall_impl; [|exact Hvars]; intros v Hv; tauto).
+  assert (Hvq : Forall (varQ mm (Zlen dims)) (h_vars h)) by (eapply Forall_impl; [|exact Hvars]; intros v Hv; cbv beta in Hv; destruct Hv; assumption).
+  assert (Hpq : Forall (pvQ dims) (h_vars h)) by (eapply Forall_impl; [|exact Hvars]; intros v Hv; cbv beta in Hv; destruct Hv; assumption).
   assert (Hlen : dc_len d = hdr_len h) by lia.
   repeat split; try lia; try assumption.
   - apply atts_ok_Q; [exact H7 | lia].
-  - unfold SZ_NC_VAR in *. lia.
-  - (* layQ *)
-    unfold layQ. split; [exact Hpq|]. rewrite <- Hlen.
+  - change (filter (Proofs_Reader.isr dims) (h_vars h)) with (filter (is_recvar dims) (h_vars h)).
+    change (map (Proofs_Reader.Lv dims)) with (map (var_len dims)). lia.
+  - rewrite <- Hlen.
     change (filter (Proofs_Reader.isr dims) (h_vars h)) with (filter (is_recvar dims) (h_vars h)).
-    change (map (Proofs_Reader.Lv dims)) with (map (var_len dims)).
-    split; [lia|]. split; [lia|].
     change (map (Proofs_Reader.bl dims)) with (map (fun v : var => (v_begin v, var_len dims v))).
     change (filter (Proofs_Reader.nonrec dims) (h_vars h)) with (filter (fun v => negb (is_recvar dims v)) (h_vars h)).
     destruct (h_vars h) as [|v0 vs0] eqn:Ev.
